@@ -2,7 +2,10 @@
 
 package raft
 
-import "time"
+import (
+	"fmt"
+	"time"
+)
 
 // Check C10: for every storage-mutating transition explored in the election,
 // replication, membership and snapshot scenarios and every storage point
@@ -38,6 +41,11 @@ func crashScenarios(tier string) []*simScenario {
 		scenSnap(snapSeeds[snapSeedIndex("lagging")], dev, true, true, 1),
 	}
 	var out []*simScenario
+	// a voter between two candidates dies at every storage point of its grant (candidate id 2, and 3 = the term)
+	for _, c := range []int{2, 3} {
+		b := scenElectVotesOnly(fmt.Sprintf("revote%d", c), electSeedRevote(c), 4, dev)
+		out = append(out, crashScenario(b, dev))
+	}
 	for _, b := range bases {
 		out = append(out, crashScenario(b, dev+1))
 	}
